@@ -129,14 +129,34 @@ def r16_13(prog: Program, rep):
         raise AnalysisError(f"expected >= 4 ref-file lock sites in DiskRefsContainer, found {n}")
 
 
+def r16_14(prog: Program, rep):
+    """add_if_new of the files backend: the existence test made under the lock looks the RESOLVED name up in packed-refs (the name
+    whose file is locked), not the name the caller passed - through HEAD that is the symbolic ref, which is never packed."""
+    m = prog.module("dulwich/refs.py")
+    f = m.funcs.get("DiskRefsContainer.add_if_new")
+    if f is None:
+        raise AnalysisError("DiskRefsContainer.add_if_new not found")
+    ps = [a.arg for a in f.node.args.args]
+    raw = ps[1] if len(ps) > 1 else "name"
+    tests = [c for c in ast.walk(f.node) if isinstance(c, ast.Compare) and isinstance(c.ops[0], (ast.In, ast.NotIn)) and "get_packed_refs()" in norm(c.comparators[0])]
+    if not tests:
+        raise AnalysisError("add_if_new: membership test in get_packed_refs() not found")
+    bad = [c for c in tests if isinstance(c.left, ast.Name) and c.left.id == raw]
+    rep.ob("R16.14", m.rel, f.qual, "the packed-refs lookup under the lock uses the resolved name", not bad,
+           f"`{norm(bad[0])}` looks up the caller's name: for add_if_new(HEAD, ..) on a branch that exists only in packed-refs the branch is taken for new "
+           f"and overwritten (first commit racing with pack_refs)" if bad else "", tests[0].lineno)
+
+
 def run(prog: Program, rep, tier="quick"):
     rep.rule("R16.1", "UNREACHABLE-UNDER(old_ref is None): no `return False` in set_if_equals/remove_if_equals of any backend")
     rep.rule("R16.2", "set_if_equals/add_if_new/remove_if_equals return a bool expression on every normal path")
     rep.rule("R16.3", "SIBLINGS-AGREE: the value compared with old_ref defaults to ZERO_SHA when the ref is absent")
     rep.rule("R16.4", "writable backends override the abstract operations; overrides accept the base signature")
     rep.rule("R16.5", "TABLE-AGREE: check_ref_format tests every rule of git-check-ref-format(1), each on a path to False")
+    rep.rule("R16.14", "add_if_new looks the resolved name up in packed-refs")
     rep.rule("R16.13", "SIBLINGS-AGREE: every ref-file write of the files backend first removes empty directories in the way and creates the parent directories")
     r16_13(prog, rep)
+    r16_14(prog, rep)
     rep.rule("R16.12", "pack_refs never packs a symbolic ref (packing refs changes nothing observable)")
     r16_12(prog, rep)
     rep.rule("R16.11", "add_if_new decides existence through the backend's merged read and the resolved value; namespace views answer in their own names")
